@@ -4,11 +4,14 @@ A test function is described by a JSON-able dict
     {"name": "check_t0", "params": [abi types], "clauses": [[cond, action], ...]}
 meaning  `if (cond_0) action_0; if (cond_1) action_1; ...; STOP`  (every action ends the call).
 A contract = {"setup": [[slot, value], ...], "tests": [test, ...]}: `setUp()` writes the slots.
+Optional: contract["msetup"] = [[m, key, value], ...] -- setUp() also writes mapping_m[key] = value (in this order);
+test["pre"] = [[m, keyexpr, valexpr], ...] -- the test first writes mapping_m[<key>] = <value> (symbolic keys allowed).
 
 Expressions (256-bit words):
     ["arg", i]  static parameter i            ["len", i]  length word of dynamic parameter i
     ["elem", i, j]  j-th element of T[] i     ["word", i, j]  j-th 32-byte word of bytes i
     ["const", c]  ["sload", slot]  ["cdsize"]
+    ["mapread", m, key]  the mapping at slot m read at <key>: SLOAD(keccak256(key . m))
     [op, a, b] for op in add sub mul div mod sdiv smod and or xor shl shr (shl/shr: value a, shift b)
     ["not", a]
 Conditions:
@@ -46,6 +49,11 @@ def head_off(i):
     return 4 + 32 * i
 
 
+def map_slot_items(m):
+    """[key] -> [keccak256(key . m)]  (memory 0..0x40 is scratch)"""
+    return ["PUSH0", "MSTORE", ("push", m), ("push", 0x20), "MSTORE", ("push", 0x40), "PUSH0", "SHA3"]
+
+
 def compile_expr(e):
     k = e[0]
     if k == "arg":
@@ -60,6 +68,8 @@ def compile_expr(e):
         return [("push", e[1]), "SLOAD"]
     if k == "cdsize":
         return ["CALLDATASIZE"]
+    if k == "mapread":
+        return compile_expr(e[2]) + map_slot_items(e[1]) + ["SLOAD"]
     if k in BINOPS:
         return compile_expr(e[2]) + compile_expr(e[1]) + [BINOPS[k]]
     if k in ("shl", "shr"):
@@ -121,9 +131,13 @@ def compile_contract(desc):
     items += [("label", "L_setup"), "POP"]
     for slot, val in desc.get("setup", []):
         items += [("push", val % M), ("push", slot), "SSTORE"]
+    for m, key, val in desc.get("msetup", []):
+        items += [("push", val % M), ("push", key % M)] + map_slot_items(m) + ["SSTORE"]
     items += ["STOP"]
     for t in tests:
         items += [("label", f"L_{t['name']}"), "POP"]
+        for m, ke, ve in t.get("pre", []):
+            items += compile_expr(ve) + compile_expr(ke) + map_slot_items(m) + ["SSTORE"]
         for n, (cond, action) in enumerate(t["clauses"]):
             lab = f"N_{t['name']}_{n}"
             items += compile_cond(cond) + ["ISZERO", ("ref", lab), "JUMPI"] + compile_action(action) + [("label", lab)]
@@ -138,6 +152,16 @@ def compile_contract(desc):
 
 def to_signed(x):
     return x - M if x >> 255 else x
+
+
+def storage_of(desc, test=None):
+    """{slot: value} plus {("map", m): [(keyexpr, valexpr), ...] oldest first} (setUp's writes, then the test's own)"""
+    d = {sl: v % M for sl, v in desc.get("setup", [])}
+    for m, key, val in desc.get("msetup", []):
+        d.setdefault(("map", m), []).append((["const", key % M], ["const", val % M]))
+    for m, ke, ve in (test or {}).get("pre", []):
+        d.setdefault(("map", m), []).append((ke, ve))
+    return d
 
 
 def eval_expr(e, env):
@@ -159,6 +183,18 @@ def eval_expr(e, env):
         return e[1] % M
     if k == "sload":
         return env["storage"].get(e[1], 0)
+    if k == "mapread":
+        key = eval_expr(e[2], env)
+        if key is None:
+            return None
+        out = 0
+        for ke, ve in env["storage"].get(("map", e[1]), []):   # oldest first: the last matching write wins
+            kk, vv = eval_expr(ke, env), eval_expr(ve, env)
+            if kk is None or vv is None:
+                return None
+            if kk == key:
+                out = vv
+        return out
     if k == "cdsize":
         return env["cdsize"]
     if k == "not":
@@ -296,6 +332,12 @@ def z3_expr(e, vs, storage):
         return bv(e[1])
     if k == "sload":
         return bv(storage.get(e[1], 0))
+    if k == "mapread":
+        key = z3_expr(e[2], vs, storage)
+        out = bv(0)
+        for ke, ve in storage.get(("map", e[1]), []):
+            out = z3.If(z3_expr(ke, vs, storage) == key, z3_expr(ve, vs, storage), out)
+        return out
     if k == "cdsize":
         return z3.BitVec("cdsize", 256)
     if k == "not":
@@ -431,7 +473,13 @@ def boundary_candidates(test, bounds, storage, rng, limit=160):
     cs = set()
     for cond, _ in test["clauses"]:
         consts_of(cond, cs)
-    cs |= set(storage.values())
+    for sk, sv in storage.items():
+        if isinstance(sk, tuple):
+            for ke, ve in sv:
+                consts_of(ke, cs)
+                consts_of(ve, cs)
+        else:
+            cs.add(sv)
     base = {0, 1, 2, M - 1, M - 2, 1 << 255, (1 << 255) - 1}
     for c in list(cs):
         base |= {c % M, (c + 1) % M, (c - 1) % M}
@@ -813,6 +861,52 @@ def gen_twin(rng, name, codes, lens, kind=None, naming=None):
     if naming != "distinct":
         test["pnames"] = ["" if naming == "unnamed" else "x"] * len(shape)
     return test
+
+
+def gen_rowmap_contract(rng, code_opt=None, n_tests=6):
+    """read-over-write: setUp writes a few mapping entries; each test reads a mapping at a SYMBOLIC key (after, possibly,
+    a write of its own at another symbolic key) and fails on the value read.  The failure needs the value read to be
+    the one of the last write AT THAT KEY -- 0 where nothing was written -- whatever the branching solver answers to
+    `key == key0` / `key != key0` (a timeout is an everyday answer)."""
+    codes = parse_codes(code_opt)
+    keys = rng.sample([0, 1, 3, 7, 1 << 160, M - 1, rng.getrandbits(256)], 3)
+    vals = [rng.choice([1, 5, M - 1, rng.getrandbits(256) | 1]) for _ in keys]
+    msetup = [[0, keys[0], vals[0]], [0, keys[1], vals[1]], [1, keys[2], vals[2]]]
+    if rng.random() < 0.5:
+        msetup.append([0, keys[0], (vals[0] + 1) % M or 2])    # overwritten entry
+    last = {}
+    for m, k, v in msetup:
+        last[(m, k)] = v
+    tests = []
+    for n in range(n_tests):
+        m = rng.choice([0, 0, 1])
+        mine = [(k, v) for (mm, k), v in last.items() if mm == m]
+        k0, v0 = rng.choice(mine)
+        x, y = ["arg", 0], ["arg", 1]
+        variant = n % 6
+        pre = []
+        if variant == 0:      # unwritten key reads 0 (fails for every x not written)
+            cl = [[["iszero", ["mapread", m, x]], _violating(rng, codes)]]
+        elif variant == 1:    # written key reads its value (fails only at x = k0): the newest stores must not be skipped
+            cl = [[["eq", ["mapread", m, x], ["const", v0]], _violating(rng, codes)]]
+        elif variant == 2:    # the test's own write at a symbolic key, read at another one
+            w = rng.choice([2, 9, M - 2])
+            pre = [[m, x, ["const", w]]]
+            cl = [[["cnot", ["eq", ["mapread", m, y], ["const", w]]], _violating(rng, codes)]]
+        elif variant == 3:    # own write, then the setUp value must still be visible at k0 unless overwritten
+            w = rng.choice([2, 9, M - 2])
+            pre = [[m, x, ["const", w]]]
+            cl = [[["eq", ["mapread", m, y], ["const", v0]], _violating(rng, codes)]]
+        elif variant == 4:    # value read through arithmetic, benign clause first
+            cl = [[["eq", x, ["const", k0]], _benign(rng, codes)],
+                  [["lt", ["mapread", m, x], ["const", 1]], _violating(rng, codes)]]
+        else:                 # control: holds everywhere (m[x] is v0 or something else: tautology) -> PASS expected
+            cl = [[["cand", ["eq", x, ["const", k0]], ["cnot", ["eq", ["mapread", m, x], ["const", v0]]]], _violating(rng, codes)]]
+        t = {"name": f"check_row{n}", "params": ["uint256", "uint256"], "clauses": cl}
+        if pre:
+            t["pre"] = pre
+        tests.append(t)
+    return {"cname": "T", "setup": [], "msetup": msetup, "tests": tests}
 
 
 def gen_directed_contract(rng, code_opt=None, n_each=2, combos=None, ops=None, lens=None, picks=None, idents=None, twins=None):
